@@ -12,7 +12,9 @@ CONSTANTS Depth
 
 Opts == {"wrap_column", "begin_style", "use_tabs"}
 \* two admissible non-default values per option (index 1, 2); index 0 = default
-Defects == {"none", "unknown_key", "bad_value"}
+\* bad_value: a value of the wrong type (tab_width = "wide"); out_of_range: a number outside the option's domain
+\* (tab_width = 258 for an eight-bit option) - it must be rejected, not reduced to some value inside the domain
+Defects == {"none", "unknown_key", "bad_value", "out_of_range"}
 
 \* a source: which value (0 = not set, 1, 2) per option, and a defect
 Sources == {s \in [wrap_column : 0..2, begin_style : 0..1, use_tabs : 0..1, defect : Defects] :
@@ -20,6 +22,9 @@ Sources == {s \in [wrap_column : 0..2, begin_style : 0..1, use_tabs : 0..1, defe
               Cardinality({o \in Opts : s[o] # 0}) <= 2}
 Absent == [wrap_column |-> 0, begin_style |-> 0, use_tabs |-> 0, defect |-> "absent"]      \* no file at this place
 NoSource == [wrap_column |-> 0, begin_style |-> 0, use_tabs |-> 0, defect |-> "none"]
+\* a DIRECTORY that happens to be called pasfmt.toml: it is not a configuration file and does not end the search
+DirEntry == [wrap_column |-> 0, begin_style |-> 0, use_tabs |-> 0, defect |-> "is_dir"]
+IsFile(s) == s # Absent /\ s # DirEntry
 
 VARIABLES tree,        \* 0..Depth -> a source or Absent (no pasfmt.toml at that level)
           cfgArg,      \* "none" | "file" | "missing" | "dir"
@@ -36,7 +41,7 @@ Single == {s \in Sources : Cardinality({o \in Opts : s[o] # 0}) + (IF s.defect =
 FewSources == Single \cup {[wrap_column |-> 1, begin_style |-> 1, use_tabs |-> 0, defect |-> "none"],
                             [wrap_column |-> 2, begin_style |-> 0, use_tabs |-> 1, defect |-> "unknown_key"]}
 
-Init == /\ tree \in [0..Depth -> FewSources \cup {Absent}]
+Init == /\ tree \in [0..Depth -> FewSources \cup {Absent, DirEntry}]
         /\ Cardinality({d \in 0..Depth : tree[d] # Absent}) <= 2
         /\ cfgArg \in {"none", "file", "missing", "dir"}
         /\ argSource \in (IF cfgArg = "file" THEN FewSources ELSE {NoSource})
@@ -44,8 +49,8 @@ Init == /\ tree \in [0..Depth -> FewSources \cup {Absent}]
         /\ chosen = Absent /\ eff = [o \in Opts |-> 0] /\ error = FALSE /\ phase = "start" /\ touched = FALSE
 
 \* the nearest pasfmt.toml walking up from the working directory through ALL ancestors
-Nearest == IF \E d \in 0..Depth : tree[d] # Absent
-             THEN tree[CHOOSE d \in 0..Depth : tree[d] # Absent /\ \A e \in (d + 1)..Depth : tree[e] = Absent]
+Nearest == IF \E d \in 0..Depth : IsFile(tree[d])
+             THEN tree[CHOOSE d \in 0..Depth : IsFile(tree[d]) /\ \A e \in (d + 1)..Depth : ~IsFile(tree[e])]
              ELSE Absent
 
 \* --config-file must exist and be a regular file; it replaces the search
